@@ -47,7 +47,7 @@ def run(R):
         R.saw(dt)
         colon = []
         for bb, t in dt.calls():
-            if t.get('name') in ('split', 'splitn', 'rsplitn', 'rsplit', 'split_once', 'splitn_mut') and len(t['args']) >= 2:
+            if t.get('name') in ('split', 'splitn', 'rsplitn', 'rsplit', 'split_once', 'splitn_mut', 'position', 'rposition') and len(t['args']) >= 2:
                 pred = t['args'][-1]
                 c = closure_splits_on(web, dt, dt.origin(pred))
                 if c == ord(':'):
@@ -57,8 +57,8 @@ def run(R):
             if t['name'] == 'splitn':
                 n = const_val(dt.origin(t['args'][1]))
                 R.check(n == 2, 'C17.R1', 'split-at-first-colon-only', site(dt, bb), 'splitn(%r, ":") — the value keeps its own colons' % n)
-            elif t['name'] == 'split_once':
-                R.ok('C17.R1', 'split-at-first-colon-only', site(dt, bb), 'split_once(":")')
+            elif t['name'] in ('split_once', 'position'):
+                R.ok('C17.R1', 'split-at-first-colon-only', site(dt, bb), '%s(":") finds the first colon' % t['name'])
             else:
                 R.bad('C17.R1', 'split-at-first-colon-only', site(dt, bb),
                       '%s(":") cuts the value at every colon: "grpc-message: a:b" is read as "a" (accepted idioms: splitn(2, ..), split_once)' % t['name'])
